@@ -3,7 +3,12 @@
 //  * fresh STIR objective functions (fresh matrix / projector pair / normalisation / prior per run)
 //  * reference pieces in double: quotient with the documented thresholds of divide_and_truncate
 //    (recon_array_functions.cxx), subset back projection, sensitivities, log-likelihood
-//  * per-case temporary directory (VERIF_TMP), removed at the end of the case.
+//  * per-case temporary directory (VERIF_TMP), removed at the end of the case
+//  * image filters with and without negative lobes (Gaussian, Metz, separable convolution) and the documented positivity
+//    threshold STIR chains behind the inter-update / inter-iteration filters (FilterSpec, apply_filter_reference)
+//  * object-reuse histories (History): which objects of a run are fresh and which have already been used, alternative
+//    data / additive term / normalisation for a first run on the same objective function (AltData), re-configuration
+//    of an objective function through its public setters (configure_objective).
 #pragma once
 #include "stir_gen.h"
 #include "explicit_p.h"
@@ -21,7 +26,13 @@
 #include "stir/IO/InterfileOutputFileFormat.h"
 #include "stir/IO/read_from_file.h"
 #include "stir/SeparableGaussianImageFilter.h"
+#include "stir/SeparableCartesianMetzImageFilter.h"
+#include "stir/SeparableConvolutionImageFilter.h"
+#include "stir/recon_buildblock/TrivialBinNormalisation.h"
 #include <filesystem>
+#include <sstream>
+#include <iomanip>
+#include <fcntl.h>
 #include <algorithm>
 #include <unistd.h>
 
@@ -86,6 +97,15 @@ poisson(SplitMix& g, double mean)
   return std::max(0., std::floor(mean + std::sqrt(mean) * z + 0.5));
 }
 
+inline double
+vmax_of(const std::vector<double>& v)
+{
+  double m = 0;
+  for (double x : v)
+    m = std::max(m, std::fabs(x));
+  return m;
+}
+
 // ---- the generated world ------------------------------------------------------------------------------
 struct Fixture
 {
@@ -111,6 +131,7 @@ struct Fixture
   shared_ptr<ProjDataInMemory> y_pd, a_pd, norm_pd;
   bool header_rounded = false; // the Interfile header rounded voxel size / origin (6 significant digits)
   bool reference_with_case_switches = false; // see choose of the reference matrix in prepare_fixture
+  shared_ptr<ProjMatrixByBinUsingRayTracing> symm_matrix; // set-up matrix with the case's symmetry switches (for its symmetries object)
 
   long nvox() const { return P.nvox(); }
   long nbins() const { return P.nbins(); }
@@ -174,6 +195,13 @@ inline shared_ptr<ProjMatrixByBinUsingRayTracing>
 make_case_matrix(const vp::MatrixOpts& o, const bool* sym, int cache)
 {
   return vp::make_matrix(o, sym[0], sym[1], sym[2], sym[3], sym[4], cache != 0, cache == 1);
+}
+
+//! the harness's own balance count for another number of subsets than the case's (first runs of a history)
+inline bool
+balanced_number_of_subsets(const Fixture& F, int N)
+{
+  return N >= 1 && N <= F.pdi->get_num_views() && balanced(count_per_subset(*F.pdi, *F.symm_matrix->get_symmetries_ptr(), N));
 }
 
 //! geometry part of the fixture (throws what STIR throws when it rejects the configuration)
@@ -354,6 +382,22 @@ struct PriorSpec
   bool kappa = false;
   float rdp_gamma = 2, rdp_eps = 0.1F;
   uint64_t kseed = 0;
+  // quadratic prior that reports parabolic_surrogate_curvature_depends_on_argument() == true (QuadraticPriorRecompute)
+  bool recompute = false;
+};
+
+//! A QuadraticPrior (same value, gradient, Hessian and surrogate curvature: nothing else is overridden) that answers the
+//! default of PriorWithParabolicSurrogate, "the curvature depends on the argument".  OSSPS then takes its
+//! recompute_penalty_term_in_denominator branch (the denominator D0 + 2 x curvature is recomputed at every sub-iteration and
+//! the precomputed data part is NOT overwritten); every prior shipped with STIR answers false.  Since the curvature of a
+//! quadratic does not depend on the argument, the iterates must be the same numbers in both modes.
+class QuadraticPriorRecompute : public QuadraticPrior<float>
+{
+public:
+  QuadraticPriorRecompute(const bool only_2D, float penalisation_factor)
+      : QuadraticPrior<float>(only_2D, penalisation_factor)
+  {}
+  bool parabolic_surrogate_curvature_depends_on_argument() const override { return true; }
 };
 
 inline shared_ptr<GeneralisedPrior<target_type>>
@@ -370,7 +414,7 @@ make_prior(const Fixture& F, const PriorSpec& s)
     }
   if (s.kind == 1)
     {
-      shared_ptr<QuadraticPrior<float>> p(new QuadraticPrior<float>(false, s.beta));
+      shared_ptr<QuadraticPrior<float>> p(s.recompute ? new QuadraticPriorRecompute(false, s.beta) : new QuadraticPrior<float>(false, s.beta));
       if (kappa)
         p->set_kappa_sptr(kappa);
       res = p;
@@ -403,6 +447,141 @@ make_objective(const Fixture& F, const PriorSpec& ps, bool use_subset_sensitivit
   if (ps.kind != 0)
     obj->set_prior_sptr(make_prior(F, ps));
   return obj;
+}
+
+// ---- object-reuse histories ----------------------------------------------------------------------------------
+// hist = 0: every run of the case uses FRESH objects (the original harness)
+//        1: every interruption point is resumed on the SAME reconstruction object (same objective function, projectors,
+//           normalisation, prior, filters): set_start_subiteration_num(k+1); set_up(saved image); reconstruct(saved image)
+//        2: the checked run is the SECOND run of its reconstruction object: a first run with other settings (cfg0), then
+//           every parameter is changed through the public setters, set_up, reconstruct
+//        3: the objective function of the checked run has been used before by a reconstruction object of the OTHER
+//           algorithm (OSSPS before OSMAPOSL in C07, OSMAPOSL before OSSPS in C08)
+// In 2 and 3 an additional run with fresh objects (B0) must reproduce every iterate of the checked run (rel 1e-6), and the
+// checked run is compared with the explicit formula like any other; resumes then also use the same object.
+enum
+{
+  HIST_FRESH = 0,
+  HIST_SAME_OBJECT_RESUME = 1,
+  HIST_SECOND_RUN = 2,
+  HIST_SHARED_OBJECTIVE = 3
+};
+
+inline const char*
+hist_name(int h)
+{
+  switch (h)
+    {
+    case HIST_FRESH:
+      return "fresh objects for every run";
+    case HIST_SAME_OBJECT_RESUME:
+      return "resumed on the same reconstruction object";
+    case HIST_SECOND_RUN:
+      return "second run of the same reconstruction object after changing its parameters through the setters";
+    default:
+      return "objective function used before by a reconstruction object of the other algorithm";
+    }
+}
+
+//! other measured data / additive term / normalisation factors on the same geometry, for a FIRST run whose results are
+//! not asserted (only the second run on the same objects is)
+struct AltData
+{
+  shared_ptr<ProjDataInMemory> y_pd, a_pd, norm_pd;
+};
+
+inline AltData
+make_alt_data(const Fixture& F, uint64_t seed)
+{
+  AltData A;
+  SplitMix g(seed ^ 0x7f4a7c15ULL);
+  const std::size_t nb = std::size_t(F.nbins());
+  const double ymax = std::max(1., vmax_of(F.y));
+  std::vector<double> y(nb), a(nb), nf(nb);
+  for (std::size_t b = 0; b < nb; ++b)
+    {
+      y[b] = F.rowsum[b] > 0 ? std::floor(1. + g.unit() * ymax) : 0.;
+      a[b] = ymax * g.real(0.02, 0.3);
+      nf[b] = 1. / g.real(0.5, 2.);
+    }
+  A.y_pd = to_projdata(F, y);
+  A.a_pd = to_projdata(F, a);
+  A.norm_pd = to_projdata(F, nf);
+  return A;
+}
+
+//! configuration of an objective function; add/norm: 0 none, 1 the case's, 2 the alternative one
+struct ObjSpec
+{
+  PriorSpec prior;
+  bool use_subsens = true;
+  int data = 0; // 0 the case's measured data, 1 the alternative
+  int add = 0;
+  int norm = 0;
+};
+
+inline ObjSpec
+final_objspec(const Fixture& F, const PriorSpec& ps, bool use_subset_sensitivities)
+{
+  ObjSpec o;
+  o.prior = ps;
+  o.use_subsens = use_subset_sensitivities;
+  o.add = F.use_add ? 1 : 0;
+  o.norm = F.use_norm ? 1 : 0;
+  return o;
+}
+
+inline shared_ptr<BinNormalisation>
+make_norm(const Fixture& F, const AltData& alt, int which)
+{
+  if (which == 0) // what the objective function has by default (set_defaults)
+    return shared_ptr<BinNormalisation>(new TrivialBinNormalisation);
+  return shared_ptr<BinNormalisation>(new BinNormalisationFromProjData(which == 1 ? F.norm_pd : alt.norm_pd));
+}
+
+//! a FRESH objective function with an arbitrary specification (same calls as make_objective)
+inline shared_ptr<objective_type>
+make_objective_spec(const Fixture& F, const ObjSpec& o, const AltData& alt)
+{
+  shared_ptr<objective_type> obj(new objective_type);
+  shared_ptr<ProjMatrixByBin> m = make_case_matrix(F.mopts, F.sym, F.cache);
+  shared_ptr<ProjectorByBinPair> pair(new ProjectorByBinPairUsingProjMatrixByBin(m));
+  obj->set_proj_data_sptr(o.data == 0 ? F.y_pd : alt.y_pd);
+  obj->set_projector_pair_sptr(pair);
+  obj->set_use_subset_sensitivities(o.use_subsens);
+  obj->set_recompute_sensitivity(true);
+  if (o.add != 0)
+    obj->set_additive_proj_data_sptr(o.add == 1 ? F.a_pd : alt.a_pd);
+  if (o.norm != 0)
+    obj->set_normalisation_sptr(make_norm(F, alt, o.norm));
+  if (o.prior.kind != 0)
+    obj->set_prior_sptr(make_prior(F, o.prior));
+  return obj;
+}
+
+//! changes an objective function that has been set up and used from `from` to `to` through its public setters only
+//! (everything that differs; the projector pair, and whatever does not differ, stays the same object)
+inline void
+reconfigure_objective(objective_type& obj, const Fixture& F, const ObjSpec& from, const ObjSpec& to, const AltData& alt)
+{
+  if (from.data != to.data)
+    obj.set_proj_data_sptr(to.data == 0 ? F.y_pd : alt.y_pd);
+  if (from.add != to.add)
+    // no additive term = a null pointer, the state after set_defaults()
+    obj.set_additive_proj_data_sptr(to.add == 0 ? shared_ptr<ExamData>() : shared_ptr<ExamData>(to.add == 1 ? F.a_pd : alt.a_pd));
+  if (from.norm != to.norm)
+    obj.set_normalisation_sptr(make_norm(F, alt, to.norm));
+  if (from.use_subsens != to.use_subsens)
+    obj.set_use_subset_sensitivities(to.use_subsens);
+  const bool same_prior_object = from.prior.kind == to.prior.kind && from.prior.kind != 0 && from.prior.kappa == to.prior.kappa
+                                 && from.prior.recompute == to.prior.recompute && from.prior.rdp_gamma == to.prior.rdp_gamma && from.prior.rdp_eps == to.prior.rdp_eps;
+  if (same_prior_object)
+    {
+      if (from.prior.beta != to.prior.beta)
+        obj.get_prior_ptr()->set_penalisation_factor(to.prior.beta);
+    }
+  else if (from.prior.kind != 0 || to.prior.kind != 0)
+    obj.set_prior_sptr(make_prior(F, to.prior)); // null for "no prior"
 }
 
 // ---- reference pieces in double --------------------------------------------------------------------------
@@ -517,6 +696,239 @@ gaussian_filter(float fwhm_xy, float fwhm_z)
   f->set_fwhms(make_coordinate(fwhm_z, fwhm_xy, fwhm_xy));
   f->set_max_kernel_sizes(make_coordinate(5, 5, 5));
   return f;
+}
+
+// ---- image filters for the inter-update / inter-iteration filter slots ---------------------------------------------
+//! stdout silencer: SeparableMetzArrayFilter's constructor printf()s every kernel element (SeparableMetzArrayFilter.cxx:75)
+struct StdoutSilencer
+{
+  int saved = -1;
+  explicit StdoutSilencer(bool active = true)
+  {
+    if (!active)
+      return;
+    std::cout.flush();
+    fflush(stdout);
+    saved = dup(1);
+    const int nul = open("/dev/null", O_WRONLY);
+    if (nul >= 0)
+      {
+        dup2(nul, 1);
+        close(nul);
+      }
+  }
+  ~StdoutSilencer()
+  {
+    if (saved < 0)
+      return;
+    fflush(stdout);
+    dup2(saved, 1);
+    close(saved);
+  }
+  StdoutSilencer(const StdoutSilencer&) = delete;
+  StdoutSilencer& operator=(const StdoutSilencer&) = delete;
+};
+
+struct FilterSpec
+{
+  int kind = 0;     // 0 none, 1 separable Gaussian, 2 separable Cartesian Metz, 3 separable convolution
+  int interval = 0; // sub-iteration interval; 0 = off (the library's default)
+  float fwhm = 0;   // mm, x and y
+  float fwhm_z = 0; // mm (Metz: 0 = no filtering along z)
+  int power = 0;    // Metz power (all filtered directions)
+  int max_kernel = 5;
+  int kernel = 0; // separable convolution: index into conv_kernel()
+  bool z = false; // separable convolution: also along z
+  bool on() const { return kind != 0 && interval > 0; }
+  bool negative_lobes() const { return (kind == 2 && power > 0) || (kind == 3 && kernel != 2); }
+};
+
+//! kernels of the separable convolution filter (documented convention of SeparableConvolutionImageFilter: the central
+//! element of an odd-length list is element 0); all but number 2 have negative lobes (edge enhancing, sum 1)
+inline std::vector<float>
+conv_kernel(int i)
+{
+  switch (((i % 5) + 5) % 5)
+    {
+    case 0:
+      return { -0.2F, 1.4F, -0.2F };
+    case 1:
+      return { -0.5F, 2.F, -0.5F };
+    case 2:
+      return { 0.25F, 0.5F, 0.25F };
+    case 3:
+      return { -0.1F, -0.15F, 1.5F, -0.15F, -0.1F };
+    default:
+      return { -0.4F, 1.4F, 0.F }; // asymmetric
+    }
+}
+
+//! JSON form: {"kind","interval","fwhm_rel","z","power","max_kernel","kernel"}; fwhm relative to the x (z) voxel size
+inline FilterSpec
+decode_filter(const json& j, const Fixture& F)
+{
+  FilterSpec f;
+  if (!j.is_object())
+    return f;
+  f.kind = j.value("kind", 0);
+  f.interval = j.value("interval", 0);
+  const double rel = j.value("fwhm_rel", 1.5);
+  f.z = j.value("z", false);
+  f.fwhm = float(rel) * F.image->get_voxel_size().x();
+  // legacy Gaussian of this harness: the x/y width (in mm) in all three directions
+  f.fwhm_z = f.kind == 1 ? f.fwhm : (f.z ? float(rel) * F.image->get_voxel_size().z() : 0.F);
+  f.power = j.value("power", 0);
+  f.max_kernel = j.value("max_kernel", 5);
+  f.kernel = j.value("kernel", 0);
+  if (f.kind == 0)
+    f.interval = 0;
+  return f;
+}
+
+inline json
+gen_filter(Src& s, int max_interval)
+{
+  json j;
+  // Gaussian (non-negative kernel) 1/4, Metz with power 1..3 (negative lobes) 3/8, separable convolution 3/8
+  const int r = int(s.range(0, 7));
+  j["kind"] = r < 2 ? 1 : (r < 5 ? 2 : 3);
+  j["interval"] = s.chance(1, 3) ? 1 : int(s.range(1, std::max(2, max_interval)));
+  j["fwhm_rel"] = s.pick(std::vector<double>{ 0.8, 1.5, 2.5 });
+  j["z"] = s.coin();
+  j["power"] = int(s.range(1, 3));
+  j["max_kernel"] = s.pick(std::vector<int>{ 5, 7, 9 });
+  j["kernel"] = int(s.range(0, 4));
+  return j;
+}
+
+inline std::string
+fmt17(double v)
+{
+  std::ostringstream s;
+  s << std::setprecision(17) << v;
+  return s.str();
+}
+
+//! a FRESH filter object (null for kind 0)
+inline shared_ptr<DataProcessor<target_type>>
+make_filter(const FilterSpec& f)
+{
+  shared_ptr<DataProcessor<target_type>> res;
+  if (f.kind == 1)
+    {
+      shared_ptr<SeparableGaussianImageFilter<float>> g(new SeparableGaussianImageFilter<float>);
+      g->set_fwhms(make_coordinate(f.fwhm_z, f.fwhm, f.fwhm));
+      g->set_max_kernel_sizes(make_coordinate(5, 5, 5));
+      res = g;
+    }
+  else if (f.kind == 2)
+    {
+      // SeparableCartesianMetzImageFilter has no setters: its parameters are keywords of the parser
+      shared_ptr<SeparableCartesianMetzImageFilter<float>> m(new SeparableCartesianMetzImageFilter<float>);
+      std::stringstream par;
+      par << "Separable Cartesian Metz Filter Parameters :=\n"
+          << "x-dir filter FWHM (in mm) := " << fmt17(double(f.fwhm)) << "\n"
+          << "y-dir filter FWHM (in mm) := " << fmt17(double(f.fwhm)) << "\n"
+          << "z-dir filter FWHM (in mm) := " << fmt17(double(f.fwhm_z)) << "\n"
+          << "x-dir filter Metz power := " << f.power << "\n"
+          << "y-dir filter Metz power := " << f.power << "\n"
+          << "z-dir filter Metz power := " << f.power << "\n"
+          << "x-dir maximum kernel size := " << f.max_kernel << "\n"
+          << "y-dir maximum kernel size := " << f.max_kernel << "\n"
+          << "z-dir maximum kernel size := " << f.max_kernel << "\n"
+          << "END Separable Cartesian Metz Filter Parameters :=\n";
+      if (!m->parse(par))
+        error("harness: parsing the Metz filter parameters failed");
+      res = m;
+    }
+  else if (f.kind == 3)
+    {
+      const std::vector<float> kv = conv_kernel(f.kernel);
+      const int half = int(kv.size()) / 2;
+      VectorWithOffset<float> k1(-half, half);
+      for (int i = -half; i <= half; ++i)
+        k1[i] = kv[std::size_t(i + half)];
+      VectorWithOffset<VectorWithOffset<float>> all(3); // first element = first index (z)
+      all[0] = f.z ? k1 : VectorWithOffset<float>(); // a list of length 0 is documented as "no filtering"
+      all[1] = k1;
+      all[2] = k1;
+      res.reset(new SeparableConvolutionImageFilter<float>(all));
+    }
+  return res;
+}
+
+//! STIR's threshold_min_to_small_positive_value (thresholding.h) as documented: values below (smallest positive value x
+//! small_number) are set to it; an image without positive values is filled with small_number.  Float arithmetic as there.
+inline std::vector<double>
+threshold_small_positive(const std::vector<double>& v, float small_number, bool& changed)
+{
+  changed = false;
+  float minpos = 0;
+  for (double x : v)
+    if (x > 0 && (minpos == 0 || float(x) < minpos))
+      minpos = float(x);
+  std::vector<double> out = v;
+  if (minpos > 0)
+    {
+      const float thr = minpos * small_number;
+      for (auto& x : out)
+        if (float(x) < thr)
+          {
+            x = double(thr);
+            changed = true;
+          }
+    }
+  else
+    {
+      for (auto& x : out)
+        x = double(small_number);
+      changed = true;
+    }
+  return out;
+}
+
+struct Filtered
+{
+  std::vector<double> image; // after the filter and the documented positivity threshold
+  double min_before_threshold = 0;
+  bool threshold_active = false;
+};
+
+//! What OSMAPOSL documents for its inter-update and inter-iteration filters (OSMAPOSLReconstruction::set_up, "ensure that
+//! the result image of the filter is positive"): the filter chained with ThresholdMinToSmallPositiveValueDataProcessor
+//! (small number 1e-6).  Computed with a FRESH, separately constructed filter object applied to the float image (the filter
+//! classes themselves are C19's subject).
+inline Filtered
+apply_filter_reference(const Fixture& F, const FilterSpec& f, const std::vector<double>& v)
+{
+  shared_ptr<target_type> im = image_from_vec(F, v);
+  {
+    StdoutSilencer quiet(f.kind == 2);
+    shared_ptr<DataProcessor<target_type>> flt = make_filter(f);
+    if (flt->apply(*im) != Succeeded::yes)
+      error("harness: reference filter could not be applied");
+  }
+  Filtered r;
+  const std::vector<double> raw = F.P.image_to_vec(*im);
+  r.min_before_threshold = *std::min_element(raw.begin(), raw.end());
+  r.image = threshold_small_positive(raw, 0.000001F, r.threshold_active);
+  return r;
+}
+
+//! l1 norm of the filter's impulse response at the central voxel: bound of the amplification of an input error
+inline double
+filter_gain(const Fixture& F, const FilterSpec& f)
+{
+  std::vector<double> d(std::size_t(F.nvox()), 0.);
+  const auto& P = F.P;
+  d[std::size_t(P.vox_index((P.imin[1] + P.imax[1]) / 2, (P.imin[2] + P.imax[2]) / 2, (P.imin[3] + P.imax[3]) / 2))] = 1.;
+  shared_ptr<target_type> im = image_from_vec(F, d);
+  StdoutSilencer quiet(f.kind == 2);
+  make_filter(f)->apply(*im);
+  double g = 0;
+  for (double x : F.P.image_to_vec(*im))
+    g += std::fabs(x);
+  return g;
 }
 
 inline double
@@ -658,6 +1070,7 @@ prepare_fixture(const json& c, json& cc, Fixture& F, const std::string& tmpdir, 
       canonicalise_grid_through_file(F, tmpdir);
       shared_ptr<ProjMatrixByBinUsingRayTracing> symm_matrix = make_case_matrix(F.mopts, F.sym, 0);
       symm_matrix->set_up(F.pdi, F.image);
+      F.symm_matrix = symm_matrix;
       F.P = vp::ExplicitP::build(F.pdi, F.image, F.mopts);
       F.reference_with_case_switches = false;
       if (cc["sym"].get<int>() != 0)
